@@ -48,7 +48,7 @@ typedef struct {
 	app_dir out, in; int do_app, do_close, interleave; /* interleave: the second speaker sends its data after its FIRST (partial) read, then keeps reading */ uint64_t entropy_key; long entropy_fail_at;
 	/* results */
 	int hs_ret; int app_ok; size_t app_got; int app_err; int close_seen; uint8_t secrets[400]; size_t secrets_len; int cipher_suite, protocol; long draws; int extra_data; /* application data received after the script (C10/C11) */
-	TLS_CONNECT *conn_out;
+	TLS_CONNECT *conn_out; int config_altered; /* after the handshake the endpoint's own configuration inside the connection object (trust anchors, own chain, own keys) differs from what tls_init put there: bit 1 anchors, 2 own chain, 4 own keys */
 	int via_files; /* configure the endpoint the way an application does: PEM files + the tls_ctx_* interface (instead of filling TLS_CTX directly) */
 } ep_t;
 static uint8_t APPDATA[2][70000];
@@ -73,7 +73,12 @@ static int ep_task(void *arg) {
 	if (e->via_files) tls_ctx_cleanup(&ctx);
 	conn->sock = e->is_client ? VN_CLIENT_FD : VN_SERVER_FD;
 	if (ep_hook) ep_hook(e, conn, 0);
+	static __thread uint8_t cfg_ca[2048], cfg_own[2048]; size_t cfg_cal = conn->ca_certs_len, cfg_ownl = e->is_client ? conn->client_certs_len : conn->server_certs_len; SM2_KEY cfg_sk = conn->sign_key, cfg_kk = conn->kenc_key; memcpy(cfg_ca, conn->ca_certs, sizeof cfg_ca); memcpy(cfg_own, e->is_client ? conn->client_certs : conn->server_certs, sizeof cfg_own);
 	e->hs_ret = tls_do_handshake(conn); e->draws = venv_cur()->draws;
+	/* nothing a peer sends may alter the verifier's configuration: trust anchors, own chain (when one is configured), own keys */
+	if (conn->ca_certs_len != cfg_cal || memcmp(conn->ca_certs, cfg_ca, cfg_cal < sizeof cfg_ca ? cfg_cal : sizeof cfg_ca)) e->config_altered |= 1;
+	if (cfg_ownl && ((e->is_client ? conn->client_certs_len : conn->server_certs_len) != cfg_ownl || memcmp(e->is_client ? conn->client_certs : conn->server_certs, cfg_own, cfg_ownl < sizeof cfg_own ? cfg_ownl : sizeof cfg_own))) e->config_altered |= 2;
+	if (cfg_ownl && (memcmp(&conn->sign_key, &cfg_sk, sizeof cfg_sk) || memcmp(&conn->kenc_key, &cfg_kk, sizeof cfg_kk))) e->config_altered |= 4;
 	if (ep_hook) ep_hook(e, conn, 1);
 	e->cipher_suite = conn->cipher_suite; e->protocol = conn->protocol;
 	/* secrets snapshot: master_secret+key_block (TLCP/1.2) or the four traffic keys/ivs (1.3) */
